@@ -14,7 +14,7 @@ RULE = ("pairs of blackbox-free lint-clean circuits (copy / self / reference-sid
         "unrelated sharing io names) x startpoint and endpoint subsets; distinct = canonical pair + subsets; "
         "non-trivial = at least one compared endpoint depends on a tied startpoint")
 PROBES = ["single_endpoint", "untied_startpoint", "pair:restructured", "pair:mutated", "pair:self", "pair:copy",
-          "pair:unrelated", "differs_rarely", "equivalent", "different"]
+          "pair:unrelated", "pair:cut", "differs_rarely", "equivalent", "different"]
 ASSUMPTIONS = ["<= 5 shared + <= 2 private startpoints per side, <= 12 gates per circuit",
                "node names do not start with c0_/c1_/dif_ and are not 'sat' (default naming)"]
 
@@ -101,7 +101,7 @@ def gen(rng, tier):
     c0 = G.gen_net(rng, n_inputs=(1, 5), n_gates=(1, 10), types=G.swarm_types(rng), max_arity=rng.randint(2, 4),
                    constants=0.2, name_style=rng.choice(("plain", "plain", "underscore")), min_outputs=1,
                    input_outputs=0.05)
-    kind = rng.choices(("copy", "self", "restructured", "mutated", "unrelated"), weights=[2, 2, 4, 4, 2])[0]
+    kind = rng.choices(("copy", "self", "restructured", "mutated", "unrelated", "cut"), weights=[2, 2, 4, 4, 2, 2])[0]
     if kind == "copy":
         c1 = copy.deepcopy(c0)
     elif kind == "self":
@@ -110,6 +110,17 @@ def gen(rng, tier):
         c1 = restructure(rng, c0)
     elif kind == "mutated":
         c1 = mutate(rng, restructure(rng, c0) if rng.random() < 0.4 else c0)
+    elif kind == "cut":
+        # a cone cut at an internal net: that net is a primary input of one circuit and a gate of the other
+        full = c0
+        cut = copy.deepcopy(c0)
+        gates = [n for n, v in cut["nodes"].items() if v[0] in ref.GATES]
+        g = rng.choice(gates)
+        cut["nodes"][g] = ["input", [], cut["nodes"][g][2]]
+        if rng.random() < 0.5:
+            c0, c1 = cut, full
+        else:
+            c0, c1 = full, cut
     else:
         c1 = G.gen_net(rng, n_inputs=(1, 4), n_gates=(1, 8), types=G.swarm_types(rng), max_arity=3, constants=0.2,
                        min_outputs=1)
